@@ -51,7 +51,15 @@ func runSolver(s solverSpec, file string, timeoutSec int) solveResult {
 	_ = cmd.Run()
 	secs := time.Since(start).Seconds()
 	text := out.String()
-	first := strings.TrimSpace(strings.SplitN(text, "\n", 2)[0])
+	first := ""
+	for _, ln := range strings.Split(text, "\n") {
+		ln = strings.TrimSpace(ln)
+		if ln == "" || strings.HasPrefix(ln, "WARNING") {
+			continue
+		}
+		first = ln
+		break
+	}
 	res := solveResult{solver: s.name, seconds: secs, output: text}
 	switch {
 	case first == "unsat":
@@ -153,7 +161,16 @@ func solveAll(qs []*query, dir string, timeoutSec int, workers int, thorough boo
 					if decided && !thorough {
 						break
 					}
+					if qq.expect == "sat" && i > 0 {
+						break // covers: one quick attempt; only a proof of unsatisfiability matters
+					}
 					t := timeoutSec
+					if qq.expect == "sat" {
+						t = 5
+						if thorough {
+							t = 20
+						}
+					}
 					if i > 0 && !thorough {
 						t = timeoutSec / 2
 						if t < 5 {
@@ -206,7 +223,7 @@ func solveAll(qs []*query, dir string, timeoutSec int, workers int, thorough boo
 						}
 					}
 				}
-				if qq.result.status == qq.expect || (qq.expect == "sat" && qq.result.status == "unknown") {
+				if os.Getenv("VERIF_KEEP_ALL") == "" && (qq.result.status == qq.expect || (qq.expect == "sat" && qq.result.status == "unknown")) {
 					os.Remove(file)
 				}
 			}
